@@ -156,6 +156,23 @@ class Run:
                                 completed=r.completed, model_violations=len(viol)))
         return len(seqs)
 
+    def repo_tests(self, props: list[str]) -> int:
+        """The repository's own test suite, run under the tracing plugin (harness/pytest_cfdptrace.py): every handler the
+        tests construct is recorded and validated like any other execution."""
+        import repotests
+        from common import REPO
+        traces, summary = repotests.record(REPO)
+        if "passed" not in summary:
+            raise MachineryError("repository test suite under the tracing plugin: " + summary)
+        for t in traces:
+            t["tid"] = self.next_tid
+            t["props"] = props
+            self.next_tid += 1
+            self.traces.append(t)
+        self.sched_stats["repo_tests"] = len(traces)
+        self.models.append(dict(name="repo_tests", kind="trace-validation of the repository's own tests", pytest=summary, traces=len(traces)))
+        return len(traces)
+
     def driver(self, fn: str, n: int, props: list[str], **kw) -> None:
         """n executions of a seeded driver of harness/drivers.py (each gets its own seed)."""
         for _ in range(n):
